@@ -49,16 +49,17 @@ Definition res_eqb (a b : rs) : bool :=
   end.
 
 (** AccountMetadata without the encrypted key: address, label, public key, scheme, key type,
-    curve, default flag *)
-Record meta := M { m_addr : string; m_label : string; m_pub : string; m_sch : N; m_alg : N; m_curve : string; m_default : bool }.
+    curve, hash name, default flag *)
+Record meta := M { m_addr : string; m_label : string; m_pub : string; m_sch : N; m_alg : N; m_curve : string; m_hash : string; m_default : bool }.
 
 Definition meta_eqb (a b : meta) : bool :=
   String.eqb (m_addr a) (m_addr b) && String.eqb (m_label a) (m_label b) && String.eqb (m_pub a) (m_pub b) &&
   N.eqb (m_sch a) (m_sch b) && N.eqb (m_alg a) (m_alg b) && String.eqb (m_curve a) (m_curve b) &&
+  String.eqb (m_hash a) (m_hash b) &&
   Bool.eqb (m_default a) (m_default b).
 
 Definition meta_of (x : acct iblob) : meta :=
-  M (a_addr _ x) (a_label _ x) (a_pub _ x) (a_sch _ x) (a_alg _ x) (a_curve _ x) (a_default _ x).
+  M (a_addr _ x) (a_label _ x) (a_pub _ x) (a_sch _ x) (a_alg _ x) (a_curve _ x) (a_hash _ x) (a_default _ x).
 
 Definition opt_eqb {A} (e : A -> A -> bool) (a b : option A) : bool :=
   match a, b with Some x, Some y => e x y | None, None => true | _, _ => false end.
